@@ -452,7 +452,9 @@ class Session:
         async def on_status(state):
             self.status_trace.append((self.loop.time(), state.name))
             if self.status_mode == "raise":
-                raise RuntimeError("status callback failure (injected)")
+                # applications fail in many ways: with a message, without any argument, with an assertion, with a lookup error
+                self._raised = getattr(self, "_raised", 0) + 1
+                raise injected_failure(self._raised, "status callback failure (injected)")
             if self.status_mode == "slow":
                 await asyncio.sleep(0.3)
             if self.status_mode == "slow_connected" and state.name == "CONNECTED":
@@ -463,7 +465,7 @@ class Session:
             self.received.append((self.loop.time(), msg))
             b = self.receive_behaviour(i) if self.receive_behaviour else None
             if b == "raise":
-                raise RuntimeError("receive callback failure (injected)")
+                raise injected_failure(i, "receive callback failure (injected)")
             if isinstance(b, (int, float)) and b > 0:
                 await asyncio.sleep(b)
 
@@ -534,6 +536,15 @@ class Session:
 
     def elapsed_since_start(self):
         return self.loop.time() - self.t0
+
+
+def injected_failure(n: int, text: str) -> Exception:
+    """The n-th exception an application callback raises: the kinds rotate (with a message, bare, KeyError with a non-string argument,
+    an AssertionError from a bare assert, a custom exception whose arguments are not strings)."""
+    class AppError(Exception):
+        pass
+    kinds = [RuntimeError(text), ValueError(), KeyError(42), AssertionError(), AppError(None, {"detail": 1}), IndexError(), LookupError(text)]
+    return kinds[n % len(kinds)]
 
 
 class _Shadow:
